@@ -546,7 +546,7 @@ func (g *gen) addOneof(m *Message, fq string, c *fieldCtx, disc, flat bool) *One
 			if disc && f.Kind == KTimestamp && g.avoid("oneof_disc_timestamp_variant") {
 				f.Kind = KString
 			}
-			if disc && f.Kind == KMessage && g.avoid("child_encoding_json") {
+			if disc && (f.Kind == KMessage || f.Kind == KTimestamp) && g.avoid("child_encoding_json") {
 				f.Kind, f.TypeRef = KString, ""
 			}
 		}
